@@ -53,10 +53,11 @@ pub struct Drained {
 pub fn drain_sync<R: Read>(r: &mut R, sizes: &[u32], cap: usize) -> Drained {
     let mut d = Drained { bytes: Vec::new(), err: None, reads: 0, eintr_retried: 0, eof_confirmed: 0, eof_violated: false };
     let mut i = 0usize;
-    let mut guard = 0u64;
+    let mut data_reads = 0u64;
     loop {
-        guard += 1;
-        if guard > 64 + 4 * cap as u64 {
+        // Interrupted results are legal no-progress steps (bounded by the source's trace, at most a few thousand);
+        // a stream is judged runaway only when it keeps producing data or more EINTRs than any trace can hold
+        if data_reads > 64 + cap as u64 || d.eintr_retried > 1_000_000 {
             d.err = Some(ErrKind::Unknown);
             return d;
         }
@@ -66,7 +67,10 @@ pub fn drain_sync<R: Read>(r: &mut R, sizes: &[u32], cap: usize) -> Drained {
         d.reads += 1;
         match r.read(&mut buf) {
             Ok(0) => break,
-            Ok(n) => d.bytes.extend_from_slice(&buf[..n]),
+            Ok(n) => {
+                data_reads += 1;
+                d.bytes.extend_from_slice(&buf[..n])
+            }
             Err(e) if e.kind() == std::io::ErrorKind::Interrupted => d.eintr_retried += 1,
             Err(e) => {
                 d.err = Some(ErrKind::from_io(e.kind()));
@@ -80,7 +84,7 @@ pub fn drain_sync<R: Read>(r: &mut R, sizes: &[u32], cap: usize) -> Drained {
     }
     // sticky EOF: the next reads also report end of stream
     let mut tries = 0;
-    while d.eof_confirmed < 3 && tries < 16 {
+    while d.eof_confirmed < 3 && tries < 8192 {
         tries += 1;
         let mut buf = [0u8; 16];
         match r.read(&mut buf) {
